@@ -284,6 +284,10 @@ func runGenProperty(t *testing.T, stress bool, check string) {
 
 func TestC12Generate(t *testing.T) { runGenProperty(t, false, "generate") }
 
+// TestC12Stress: the same grammar with legal-but-awkward identifiers (Go keywords and predeclared names, names of
+// generated methods and helper types, leading underscores) for fields, types and enum symbols.
+func TestC12Stress(t *testing.T) { runGenProperty(t, true, "stress") }
+
 // ---------------------------------------------------------------------------------------------
 // checked-in bindings
 
@@ -382,6 +386,27 @@ func witnessIncludeClash() *schema.Schema {
 	return s
 }
 
+func witnessFieldMethodClash() *schema.Schema {
+	s := &schema.Schema{}
+	s.Add(&schema.Named{Ident: schema.Ident{Name: "Cmp", Namespace: "w"}, Kind: "record", Fields: []schema.Field{
+		{Name: "equals", Type: schema.P("bool")}, {Name: "computeHash", Type: schema.P("int64"), Optional: true}}})
+	return s
+}
+
+func witnessReceiverPackageClash() *schema.Schema {
+	s := &schema.Schema{}
+	s.Add(&schema.Named{Ident: schema.Ident{Name: "Item", Namespace: "w.x"}, Kind: "record", Fields: []schema.Field{{Name: "a", Type: schema.P("string")}}})
+	s.Add(&schema.Named{Ident: schema.Ident{Name: "Xray", Namespace: "w"}, Kind: "record", Fields: []schema.Field{{Name: "item", Type: schema.R("w.x", "Item")}}})
+	return s
+}
+
+func witnessDerivedNameClash() *schema.Schema {
+	s := &schema.Schema{}
+	s.Add(&schema.Named{Ident: schema.Ident{Name: "Node", Namespace: "w"}, Kind: "record", Fields: []schema.Field{{Name: "a", Type: schema.P("string")}}})
+	s.Add(&schema.Named{Ident: schema.Ident{Name: "Node_PartialUpdate", Namespace: "w"}, Kind: "record", Fields: []schema.Field{{Name: "b", Type: schema.P("int32")}}})
+	return s
+}
+
 func TestC12KnownFindings(t *testing.T) {
 	rec := stats.For("C12")
 	if hx.Replaying() {
@@ -391,15 +416,22 @@ func TestC12KnownFindings(t *testing.T) {
 		t.Skip()
 	}
 	for _, w := range []struct {
-		id string
-		s  *schema.Schema
-	}{{"KF-C12-bytes-key", witnessBytesKey()}, {"KF-C12-include-field-clash", witnessIncludeClash()}} {
+		id      string
+		s       *schema.Schema
+		symptom string // the witness only counts as the known finding when it fails this way
+	}{
+		{"KF-C12-bytes-key", witnessBytesKey(), "[]byte"},
+		{"KF-C12-include-field-clash", witnessIncludeClash(), "redeclared"},
+		{"KF-C12-field-method-clash", witnessFieldMethodClash(), "field and method with the same name"},
+		{"KF-C12-receiver-package-clash", witnessReceiverPackageClash(), "x.Item"},
+		{"KF-C12-derived-type-name-clash", witnessDerivedNameClash(), "Node_PartialUpdate redeclared"},
+	} {
 		c := genCase{Schema: w.s}
 		msg, _ := checkGen(rec, c)
 		if msg == "" {
 			continue // compiles: the finding is gone
 		}
-		if kf.Open(w.id) {
+		if kf.Open(w.id) && strings.Contains(msg, w.symptom) {
 			rec.Known(w.id, kf.What(w.id), map[string]any{"witness": w.id, "compiler": msg})
 			continue
 		}
